@@ -7,15 +7,15 @@ props = [json.loads(l) for l in open(os.path.join(VERIF, "properties.jsonl"))]
 CHECKS = {
  "C01": {
   "level": "proof",
-  "technique": "Coq proofs of field/framing encoders + extracted-model correspondence on exact Marshal bytes + protobuf-go parse",
-  "text": "Proved in Coq for all values/sizes (no bound): every scalar writer emits the reference field for every value of all 15 kinds and every valid field number (C01_scalar_field); anyBytes frames every payload length with tag+minimal length without panicking (C01_framing); the spec varint reader accepts what is written. The whole-message statement is NOT proved (stated as PARTIAL in the Props file); it is decided on every run by evaluating the extracted model (generated-program interpreter + reference spec) and the implementation on the same generated inputs and comparing them with each other and with protobuf-go.",
+  "technique": "Coq proof T_enc (Marshal of generated code = reference encoder, all schemas/values) + extracted-model correspondence on exact Marshal bytes + protobuf-go parse",
+  "text": "Proved in Coq for all values/sizes/depths: Theorem T_enc (Schema/TEnc.v): for every schema the generator model accepts and every well-typed value, Marshal of the generated program = ref_encode (the reference encoder written from the encoding document), at any size and nesting depth, never a panic. Below it: every scalar writer emits the reference field for every value of all 15 kinds (C01_scalar_field), anyBytes frames every payload length (C01_framing), the spec varint reader accepts what is written. Not a theorem: that the reference encoding, read back by the reference decoder, yields the same values (spec-level round trip) - decided per run against the Coq reference decoder and protobuf-go. The theorems are about the Gallina model: that the model is the code is checked on every run by evaluating the extracted model and the implementation built from the working tree on the same generated inputs (checked-in types and freshly generated ones), that the emitted programs are the generator model's by T-pico, and that the reference specification means what protobuf means by comparing it with protobuf-go.",
   "note": "Trusted: Coq 8.16.1 kernel (vm_compute, no native_compute, no axioms: Print Assumptions recorded in evidence), extraction with ExtrOcamlBasic, the OCaml driver, the Go harness and generators, protobuf-go v1.31.0 as oracle. The tie between model and Go code is differential testing on the projection named in the level text, not proof.",
   "ref": "8 C01"
  },
  "C02": {
   "level": "proof",
-  "technique": "Coq proofs of decode rules and reader contracts + correspondence on rewritten valid encodings + protobuf-go",
-  "text": "Proved in Coq for all values/sizes (no bound): the narrowing/zig-zag/bool rules equal the protobuf rules for every 64-bit wire value (C02_value_rules); single readers return the encoded value and leave the cursor on the next tag. The whole-message statement is NOT proved (stated as PARTIAL in the Props file); it is decided on every run by evaluating the extracted model (generated-program interpreter + reference spec) and the implementation on the same generated inputs and comparing them with each other and with protobuf-go.",
+  "technique": "Coq proof T_dec (Unmarshal of generated code = reference decoder on every byte string) + Loop theorem + correspondence on rewritten valid encodings + protobuf-go",
+  "text": "Proved in Coq: Theorem T_dec (Schema/TDec.v): for every schema with tdec_applies (valid distinct numbers, no custom type without modelled semantics; evaluated per schema on every run) and EVERY byte string, Unmarshal of the generated program returns exactly what the reference decoder (tokenize, then merge token by token) computes and returns an error exactly when the reference decoder rejects the input. This covers fields in any order, packed/unpacked/mixed repeated scalars, split repeated fields, non-minimal varints, unknown fields, merged sub-messages, duplicate map keys; below it the Loop theorem (multi-pass Loop = single-pass dispatch for the Decode body of every accepted message), the token bridge (ConsumeVarint/ConsumeFieldValue/nextField = the wire grammar on arbitrary bytes) and the decode transforms for every 64-bit wire value. Not a theorem: that two rewritings of one encoding have the same reference value - the rewritten-encoding stream compares implementation, model, reference decoder and protobuf-go per run. The theorems are about the Gallina model: that the model is the code is checked on every run by evaluating the extracted model and the implementation built from the working tree on the same generated inputs (checked-in types and freshly generated ones), that the emitted programs are the generator model's by T-pico, and that the reference specification means what protobuf means by comparing it with protobuf-go.",
   "note": "Trusted: Coq 8.16.1 kernel (vm_compute, no native_compute, no axioms: Print Assumptions recorded in evidence), extraction with ExtrOcamlBasic, the OCaml driver, the Go harness and generators, protobuf-go v1.31.0 as oracle. The tie between model and Go code is differential testing on the projection named in the level text, not proof.",
   "ref": "8 C02"
  },
@@ -28,22 +28,22 @@ CHECKS = {
  },
  "C04": {
   "level": "proof",
-  "technique": "Coq bounds proofs of wire readers + malformed-stream correspondence (outcome class) + runtime observation",
-  "text": "Proved in Coq for all values/sizes (no bound): on arbitrary bytes the varint and length-delimited readers return an error or a length inside the input (no out-of-bounds slice). PARTIAL: termination (fuel never exhausted), panic-freedom of the Go code, stack depth and time are validated by correspondence/observation (recover, watchdog, 10001-deep groups, input bytes before/after), not proved.",
+  "technique": "Coq bounds proofs of all wire readers (incl. the group skipper), progress of every cursor move and emitted statement, Loop = single pass + malformed-stream correspondence (outcome class) + runtime observation",
+  "text": "Proved in Coq for arbitrary bytes: the varint, length-delimited and field-value readers (groups of any depth) return an error or a length inside the input; every cursor move and every emitted Decode statement whose pending-field test succeeds strictly shortens the remaining input or invalidates the pending field; the multi-pass Loop over the Decode body of every accepted message equals a single-pass parser with fuel len+2, so the model's loops never run out of fuel before the input is exhausted; by T_dec the model's verdict on arbitrary bytes is the reference decoder's. Runtime facts no Gallina model expresses - panic-freedom of the Go code, stack depth, wall-clock, input not modified - are observed by the harness (recover, watchdog, 10001-deep groups/nesting, input bytes before/after).",
   "note": "Trusted: Coq 8.16.1 kernel (vm_compute, no native_compute, no axioms: Print Assumptions recorded in evidence), extraction with ExtrOcamlBasic, the OCaml driver, the Go harness and generators, protobuf-go v1.31.0 as oracle. The tie between model and Go code is differential testing on the projection named in the level text, not proof.",
   "ref": "8 C04"
  },
  "C05": {
   "level": "proof",
-  "technique": "Coq proofs of rejection/stickiness lemmas + correspondence on err==nil vs independent well-formedness predicate",
-  "text": "Proved in Coq for all values/sizes (no bound): numbers above 2^29-1, truncated tags and wrong wire types are errors; dec.err is never cleared by cursor moves or popState. PARTIAL: err==nil <-> wf_input for whole messages is decided per run: implementation = model = Coq wf_input = independent predicate on protobuf-go's protowire, on prefixes/corruptions/short token strings.",
+  "technique": "Coq proof: Unmarshal returns nil exactly on the inputs the reference decoder accepts (corollary of T_dec) + correspondence of err==nil with an independent well-formedness predicate",
+  "text": "Proved in Coq: C05_accepts_exactly_wellformed - for every schema with tdec_applies and every byte string, Unmarshal's error is nil iff the reference decoder accepts (every tag valid, every wire type the field's or packed, every length inside its enclosing buffer, nested messages/map entries/Timestamps recursively well formed, input fully consumed); ConsumeFieldValue fails exactly where the wire grammar has no value and never reports more bytes than the input holds (groups of any depth); dec.err is never cleared. Per run: implementation verdict = model verdict = Coq wf_input = an independent predicate built on protobuf-go's protowire, on prefixes, corruptions, group-structure damage and short token strings. The theorems are about the Gallina model: that the model is the code is checked on every run by evaluating the extracted model and the implementation built from the working tree on the same generated inputs (checked-in types and freshly generated ones), that the emitted programs are the generator model's by T-pico, and that the reference specification means what protobuf means by comparing it with protobuf-go.",
   "note": "Trusted: Coq 8.16.1 kernel (vm_compute, no native_compute, no axioms: Print Assumptions recorded in evidence), extraction with ExtrOcamlBasic, the OCaml driver, the Go harness and generators, protobuf-go v1.31.0 as oracle. The tie between model and Go code is differential testing on the projection named in the level text, not proof.",
   "ref": "8 C05"
  },
  "C06": {
   "level": "proof",
-  "technique": "Coq proofs of minimal varints/tags/length patching + exact-bytes correspondence + fixpoint oracle",
-  "text": "Proved in Coq for all values/sizes (no bound): minimal varints for every uint64, canonical tags for every valid number, minimal length prefix for every payload length (all three patching branches), default omission. The whole-message statement is NOT proved (stated as PARTIAL in the Props file); it is decided on every run by evaluating the extracted model (generated-program interpreter + reference spec) and the implementation on the same generated inputs and comparing them with each other and with protobuf-go. Violations are decided by the property's own fixpoint test (bytes == deterministic re-marshal of their parse).",
+  "technique": "Coq proofs of minimal varints/tags/length patching and T_enc (Marshal = the reference encoder, a function of the value) + exact-bytes correspondence + fixpoint oracle",
+  "text": "Proved in Coq for all values/sizes: minimal varints for every uint64, canonical tags for every valid number, minimal length prefix for every payload length (all three patching branches), default omission; Theorem T_enc (Schema/TEnc.v): for every schema the generator model accepts and every well-typed value, Marshal of the generated program = ref_encode (the reference encoder written from the encoding document), at any size and nesting depth, never a panic. The reference encoder writes known fields in ascending number, packs repeated scalars, omits defaults, appends unknown bytes last. Per run: exact bytes of implementation = model = reference; violations are decided by the property's own fixpoint test (bytes == deterministic re-marshal of their parse by protobuf-go) on map-free types. The theorems are about the Gallina model: that the model is the code is checked on every run by evaluating the extracted model and the implementation built from the working tree on the same generated inputs (checked-in types and freshly generated ones), that the emitted programs are the generator model's by T-pico, and that the reference specification means what protobuf means by comparing it with protobuf-go.",
   "note": "Trusted: Coq 8.16.1 kernel (vm_compute, no native_compute, no axioms: Print Assumptions recorded in evidence), extraction with ExtrOcamlBasic, the OCaml driver, the Go harness and generators, protobuf-go v1.31.0 as oracle. The tie between model and Go code is differential testing on the projection named in the level text, not proof.",
   "ref": "8 C06"
  },
@@ -56,22 +56,22 @@ CHECKS = {
  },
  "C09": {
   "level": "proof",
-  "technique": "Coq cursor lemmas + history correspondence (sequential vs one-shot vs reference)",
-  "text": "Proved in Coq for all values/sizes (no bound): non-pending readers leave state untouched; consuming n bytes leaves exactly the rest; the value read is independent of the old value. The whole-message statement is NOT proved (stated as PARTIAL in the Props file); it is decided on every run by evaluating the extracted model (generated-program interpreter + reference spec) and the implementation on the same generated inputs and comparing them with each other and with protobuf-go.",
+  "technique": "Coq proof of the property in full (tokens of a concatenation, reference merge, Unmarshal(a++b) = sequential Unmarshal via T_dec) + history correspondence",
+  "text": "Proved in Coq: C09_unmarshal_concat - for every schema with tdec_applies and all byte strings a, b: if Unmarshal a into t0 gives t1 without error and Unmarshal b into t1 gives t2 without error, then Unmarshal (a++b) into t0 gives exactly t2 (repeated fields appended, sub-messages merged, maps overwritten per key, last oneof member wins, nothing reset). Built from tokens_app (incl. prefix and fuel stability of the group skipper), ref_decode_app, monotonicity in the nesting budget, and T_dec. Per run: histories of 1-4 calls, implementation sequential = one-shot = model = reference decoder = protobuf-go on the concatenation. The theorems are about the Gallina model: that the model is the code is checked on every run by evaluating the extracted model and the implementation built from the working tree on the same generated inputs (checked-in types and freshly generated ones), that the emitted programs are the generator model's by T-pico, and that the reference specification means what protobuf means by comparing it with protobuf-go.",
   "note": "Trusted: Coq 8.16.1 kernel (vm_compute, no native_compute, no axioms: Print Assumptions recorded in evidence), extraction with ExtrOcamlBasic, the OCaml driver, the Go harness and generators, protobuf-go v1.31.0 as oracle. The tie between model and Go code is differential testing on the projection named in the level text, not proof.",
   "ref": "8 C09"
  },
  "C10": {
   "level": "proof",
-  "technique": "Coq lemmas on skipping/re-tagging + unknown-injection correspondence",
-  "text": "Proved in Coq for all values/sizes (no bound): known readers ignore unknown pending fields; captured fields get the canonical tag; skipping a varint consumes exactly its bytes. The whole-message statement is NOT proved (stated as PARTIAL in the Props file); it is decided on every run by evaluating the extracted model (generated-program interpreter + reference spec) and the implementation on the same generated inputs and comparing them with each other and with protobuf-go.",
+  "technique": "Coq proof T_dec + unknown-token lemma (unknown tokens leave known fields untouched, are appended re-tagged in order only by capturing messages) + unknown-injection correspondence",
+  "text": "Proved in Coq: Theorem T_dec (Schema/TDec.v): for every schema with tdec_applies (valid distinct numbers, no custom type without modelled semantics; evaluated per schema on every run) and EVERY byte string, Unmarshal of the generated program returns exactly what the reference decoder (tokenize, then merge token by token) computes and returns an error exactly when the reference decoder rejects the input. In the reference decoder a token whose number no field has leaves every known field unchanged and is appended - canonical tag, then the value bytes exactly as in the input - to XXX_unrecognized by capturing messages only (C10_unknown_token); UnrecognizedFields' loop is proved to realise exactly that for consecutive unknown fields (re-tagging = canonical tag, skipper = one value of the grammar incl. groups). Per run: unknown fields of every wire type injected anywhere (incl. nested/sibling groups), captured bytes compared, forwarding through a narrower schema. The theorems are about the Gallina model: that the model is the code is checked on every run by evaluating the extracted model and the implementation built from the working tree on the same generated inputs (checked-in types and freshly generated ones), that the emitted programs are the generator model's by T-pico, and that the reference specification means what protobuf means by comparing it with protobuf-go.",
   "note": "Trusted: Coq 8.16.1 kernel (vm_compute, no native_compute, no axioms: Print Assumptions recorded in evidence), extraction with ExtrOcamlBasic, the OCaml driver, the Go harness and generators, protobuf-go v1.31.0 as oracle. The tie between model and Go code is differential testing on the projection named in the level text, not proof.",
   "ref": "8 C10"
  },
  "C11": {
   "level": "proof",
-  "technique": "Coq proof generic in key/value kind for entry encoding + correspondence on map messages",
-  "text": "Proved in Coq for all values/sizes (no bound): for all 12x15 kinds an entry is tag+minimal length+(key unless default)+(value unless default) (C11_entry). The whole-message statement is NOT proved (stated as PARTIAL in the Props file); it is decided on every run by evaluating the extracted model (generated-program interpreter + reference spec) and the implementation on the same generated inputs and comparing them with each other and with protobuf-go. All 180 instantiations are exercised through a generated schema in the thorough tier; quick covers the 27 checked-in instantiations.",
+  "technique": "Coq proof generic in key/value kind for entry encoding; T_dec covers the decoding of all map codecs + correspondence on map messages (all 180 codecs via a generated schema)",
+  "text": "Proved in Coq for all 12x15 kinds: an entry is tag+minimal length+(key unless default)+(value unless default) (C11_entry, T_enc); decoding of map fields of every kind pair is the reference's (entries in any order, missing key or value = zero, duplicate keys overwrite, unknown fields inside entries skipped) as part of T_dec. Not a theorem: the spec-level round trip of whole maps. Per run: all 180 instantiations through the generated `allmaps` schema (real plugin output) plus the checked-in ones, incl. entries of boundary length 127/128/129 and 16383/16384/16385 bytes, compared with the model and protobuf-go. The theorems are about the Gallina model: that the model is the code is checked on every run by evaluating the extracted model and the implementation built from the working tree on the same generated inputs (checked-in types and freshly generated ones), that the emitted programs are the generator model's by T-pico, and that the reference specification means what protobuf means by comparing it with protobuf-go.",
   "note": "Trusted: Coq 8.16.1 kernel (vm_compute, no native_compute, no axioms: Print Assumptions recorded in evidence), extraction with ExtrOcamlBasic, the OCaml driver, the Go harness and generators, protobuf-go v1.31.0 as oracle. The tie between model and Go code is differential testing on the projection named in the level text, not proof.",
   "ref": "8 C11"
  },
@@ -112,15 +112,15 @@ CHECKS = {
  },
  "C07": {
   "level": "other",
-  "technique": "verified closure checker (Coq) over the import graph regenerated by go list + nm scan of a linked probe",
-  "text": "Theorem closed_sound (every package reachable from a root lies in any import-closed set containing it) proved once; on every run the import graphs of the 4 runtime and 5 generated packages, in both build configurations (plain / -tags verif with the injected hook), are regenerated from `go list -deps` into Coq and the closed set is computed and checked by vm_compute: no reachable package is reflect, fmt or outside std/module (C07_plain, C07_verif). That the linker keeps dead-code elimination on is toolchain behaviour no Gallina model expresses: observed by linking a probe that references every exported function/method/map codec and scanning go tool nm. Hence level other.",
+  "technique": "verified closure checker (Coq) over the import graph regenerated by go list + import closure of every package the plugin emits for fresh schemas + nm scan of a linked probe",
+  "text": "Theorem closed_sound (every package reachable from a root lies in any import-closed set containing it) proved once; on every run the import graphs of the 4 runtime and 5 generated packages, in both build configurations (plain / -tags verif with the injected hook), are regenerated from `go list -deps` into Coq and the closed set is computed and checked by vm_compute: no reachable package is reflect, fmt or outside std/module (C07_plain, C07_verif). That the linker keeps dead-code elimination on is toolchain behaviour no Gallina model expresses: observed by linking a probe that references every exported function/method/map codec and scanning go tool nm. For 'any generated message': every package the real plugin emits for the fresh schema set (all field shapes, enums of 17 and 20 values, an unused import of a well-known file) is compiled and its `go list -deps` closure searched for reflect, fmt and non-std packages. Hence level other.",
   "note": "Trusted: Coq 8.16.1 kernel (vm_compute, no native_compute, no axioms: Print Assumptions recorded in evidence), extraction with ExtrOcamlBasic, the OCaml driver, the Go harness and generators, protobuf-go v1.31.0 as oracle. The tie between model and Go code is differential testing on the projection named in the level text, not proof. Additionally trusted: `go list` and `go tool nm`.",
   "ref": "8 C07"
  },
  "C12": {
   "level": "proof",
-  "technique": "Coq proofs about the generator model + real plugin on grammar-drawn schemas (verdict, emitted programs via T-pico, compiled behaviour vs protobuf-go)",
-  "text": "Proved in Coq for all values/sizes (no bound): for every schema the generator model picks Always writers for presence-carrying scalars and oneof members; optional enum is an explicit error; the shipped schemas (regenerated from the .proto files by T-proto) are accepted (C12_checked_in_total, vm_compute). PARTIAL: 'for every supported schema the emitted codecs satisfy C01-C03/C06/C08' is decided per run: a fixed feature-coverage set (all 180 maps, recursion, optional x15 kinds, oneof x15 kinds+enum+message, out-of-order and extreme field numbers, picoconv casts in 4 shapes, capture) plus grammar-drawn schemas go through the REAL plugin built from the working tree; its verdict and its emitted Encode/Decode programs (parsed back by T-pico) must equal the generator model's, the output must compile, two runs must be byte-identical, and the compiled code is driven like the checked-in types against the model and protobuf-go. Boundary schemas must be rejected by plugin and model alike.",
+  "technique": "Coq proofs T_enc/T_dec over the generator model for every accepted schema + the real plugin on fresh schemas (verdict, emitted programs via T-pico, compiles, behaviour vs protobuf-go, determinism)",
+  "text": "Proved in Coq: for every schema the generator model accepts, the programs it emits encode as the reference encoder (T_enc) and - with distinct valid numbers and modelled custom types - decode as the reference decoder on every input (T_dec); Always writers are selected for presence-carrying scalars and oneof members; optional enum / unsupported map / capture with a number >= 64 are explicit errors. That the REAL plugin is the generator model is decided per run: a fixed feature-coverage set (all 180 maps, recursion, optional x15 kinds, oneof x15 kinds+enum+message, two oneofs, capture x oneof, out-of-order and extreme field numbers, picoconv casts in 4 shapes, enums of 17/20 values, an unused well-known import) plus grammar-drawn schemas go through the plugin built from the working tree; its verdict and its emitted Encode/Decode programs (parsed back by T-pico) must equal the model's, the output must compile, 100 further plugin runs must be byte-identical, and the compiled code is driven like the checked-in types against the model and protobuf-go. Boundary schemas must be rejected by plugin and model alike.",
   "note": "Trusted: Coq 8.16.1 kernel (vm_compute, no native_compute, no axioms: Print Assumptions recorded in evidence), extraction with ExtrOcamlBasic, the OCaml driver, the Go harness and generators, protobuf-go v1.31.0 as oracle. The tie between model and Go code is differential testing on the projection named in the level text, not proof.",
   "ref": "8 C12"
  },
